@@ -183,6 +183,9 @@ structure State where
   transit : List Val := []
   /-- ghost: slots allocated and not retained since -/
   fresh : List Nat := []
+  /-- ghost: one of the debug assertions of the heap would have fired (`retain` / `release` /
+  `get_binary_data` / `materialize` of a freed slot — "use-after-free" — or a `release` underflow) -/
+  uaf : Bool := false
   deriving Repr, Inhabited
 
 /-- `Executor::new`: everything empty -/
@@ -269,13 +272,15 @@ def processPendingFree (s : State) : State :=
   freeAll { s with pendingFree := [] } s.pendingFree
 
 def retainIdx (s : State) (idx : Nat) : State :=
-  { s with refcounts := s.refcounts.modify idx (· + 1), fresh := s.fresh.filter (· != idx) }
+  { s with refcounts := s.refcounts.modify idx (· + 1), fresh := s.fresh.filter (· != idx),
+           uaf := s.uaf || s.isFreed idx }
 
 /-- leaf case of `release`: `saturating_sub(1)`, queue the slot when it reaches 0 -/
 def releaseIdx (s : State) (idx : Nat) : State :=
   let c := s.rc idx - 1
   { s with refcounts := s.refcounts.setIfInBounds idx c,
-           pendingFree := if c = 0 then idx :: s.pendingFree else s.pendingFree }
+           pendingFree := if c = 0 then idx :: s.pendingFree else s.pendingFree,
+           uaf := s.uaf || s.isFreed idx || s.rc idx == 0 }
 
 mutual
 /-- `retain` (deep) -/
@@ -300,6 +305,11 @@ def releaseList (s : State) : List Val → State
   | [] => s
   | v :: vs => releaseList (release s v) vs
 end
+
+/-- `get_binary_data` on every binary of `v` (what a builtin may read of its argument): the debug
+assertion "access of freed heap slot" -/
+def noteAccess (s : State) (v : Val) : State :=
+  { s with uaf := s.uaf || v.idxs.any s.isFreed }
 
 /-! ### Choke points. The Rust functions take `proc: &mut Process` (the running process, always
 present); the model addresses it by id and leaves the state unchanged if the id is unknown. -/
@@ -356,12 +366,16 @@ def releaseOrphanLocals (s : State) (pid : Nat) (keep : List Nat) : Bool × Stat
     let (ls, os) := splitOrphans keep 0 p.locals
     (true, releaseList (s.setProc pid { p with locals := ls }) os)
 
-/-- `materialize` on a heap binary: flatten in place; returns the bytes -/
-def materialize (s : State) (index : Nat) : Bytes × State :=
+/-- `materialize` on a heap binary: flatten in place; returns the bytes (without the assertion) -/
+def materializeCore (s : State) (index : Nat) : Bytes × State :=
   match s.heap[index]? with
   | some (.owned bs) => (bs, s)
   | some (.rope bs) => (bs, { s with heap := s.heap.setIfInBounds index (.owned bs) })
   | none => ([], s)
+
+/-- `materialize` with its debug assertion ("materialize of freed heap slot") -/
+def materialize (s : State) (index : Nat) : Bytes × State :=
+  ((materializeCore s index).1, { (materializeCore s index).2 with uaf := s.uaf || s.isFreed index })
 
 /-- `Vec::resize(index + 1, None)` when `len <= index` -/
 def resizeCache (c : Array (Option Bin)) (index : Nat) : Array (Option Bin) :=
